@@ -273,7 +273,9 @@ def evaluate(res, cfg):
     final = np.array(g.coef_, dtype=float)
     final_ids = [k for k, v in enumerate(vecs) if v.shape == final.shape and np.array_equal(v, final)]
     names = expected_names(cfg)
-    dropped = cfg['via_ctor'] and cfg['cls'] == 'LinearGAM' and names != ['deviance', 'diffs']
+    # a constructor that does not hand `callbacks` on leaves the base-class default ['deviance', 'diffs'] in place
+    # (observed, not assumed: DESIGN S13 says LinearGAM does this)
+    dropped = bool(cfg['via_ctor'] and sorted(logs) != sorted(set(names)) and sorted(logs) == ['deviance', 'diffs'])
 
     # ---- direct probes of the property statement (independent of the Coq model)
     if not (1 <= N <= cfg['max_iter']):
@@ -290,8 +292,8 @@ def evaluate(res, cfg):
     if not final_ids or N not in final_ids:
         viol('final coef_ is not the coef_new of the last iteration', 'vector id %d' % N, final_ids)
     if dropped:
-        if sorted(logs) != sorted(set(names)):
-            viol('LinearGAM(callbacks=...) ignores the callbacks argument', sorted(set(names)), sorted(logs), finding=F_S13)
+        viol('%s(callbacks=...) ignores the callbacks argument' % cfg['cls'], sorted(set(names)), sorted(logs),
+             finding=F_S13 if cfg['cls'] == 'LinearGAM' else None)
     else:
         for c in cfg['callbacks']:
             nm = c[1] if c[0] == 'builtin' else c[2]
